@@ -333,6 +333,16 @@ def one_program(ctx, alg, cfg, name, prog, plain_ns, reg_ns):
             ctx.note_raised(want, 'plain')
         return
     want_e = as_elem(want)
+    try:
+        finite = all((complex(v) == complex(v)) and abs(complex(v)) != float('inf') for v in want_e.values()
+                     if not hasattr(v, 'free_symbols') and not hasattr(v, 'shape'))
+    except Exception:
+        finite = True
+    if not finite:
+        # numpy scalars turn a division by zero into inf / nan (with a warning) where Python numbers raise: the plain function
+        # has no value here either
+        ctx.count('plain_f_not_finite_case_discarded')
+        return
     ctx.count('programs')
     if prog.grammar == 2:
         ctx.count('grammar2_programs')
